@@ -1,4 +1,886 @@
-//! harness family c13 (stub until the family is built)
+//! harness family c13: file packing encodings are exact inverse pairs.
+//!
+//! Every case runs the REAL a2kit packers in-process (under `guarded`), emits
+//!  * `Q` lines: the same call evaluated by the Lean model (`a2drv`, `Drv/C13.lean`), byte for byte
+//!    (chunks, eof, fs_type, aux, access after packing; unpacked bytes; load address), and
+//!  * `O` lines: the property stated directly on the real code: `unpack(pack(x)) == x` (with the
+//!    load address) or `pack` refused an unrepresentable input; a representable input must not be
+//!    refused; nothing may panic.
+//! Sections (case index ranges are fixed so that `--only idx` replays one case):
+//!   bin/tok/raw packers, text, records, JSON, escapes.
 use crate::util::*;
+use a2kit::commands::ItemType;
+use a2kit::fs::FileImage;
 
-pub fn run(_ctx: &mut Ctx) {}
+#[derive(Clone, Copy, PartialEq, Debug)]
+pub enum Fs { Dos, Prodos, Pascal, Cpm, Fat }
+pub const ALL_FS: [Fs; 5] = [Fs::Dos, Fs::Prodos, Fs::Pascal, Fs::Cpm, Fs::Fat];
+impl Fs {
+    pub fn name(&self) -> &'static str {
+        match self { Fs::Dos => "dos", Fs::Prodos => "prodos", Fs::Pascal => "pascal", Fs::Cpm => "cpm", Fs::Fat => "fat" }
+    }
+    /// directory name used in failure signatures (the a2kit module name)
+    pub fn module(&self) -> &'static str {
+        match self { Fs::Dos => "dos3x", Fs::Prodos => "prodos", Fs::Pascal => "pascal", Fs::Cpm => "cpm", Fs::Fat => "fat" }
+    }
+}
+
+pub fn new_fimg(fs: Fs, chunk_len: usize) -> FileImage {
+    match fs {
+        Fs::Dos => a2kit::fs::dos3x::new_fimg(chunk_len, "TEST").expect("new_fimg"),
+        Fs::Prodos => a2kit::fs::prodos::new_fimg(chunk_len, false, "TEST").expect("new_fimg"),
+        Fs::Pascal => a2kit::fs::pascal::new_fimg(chunk_len, false, "TEST").expect("new_fimg"),
+        Fs::Cpm => a2kit::fs::cpm::new_fimg(chunk_len, false, "TEST.TXT").expect("new_fimg"),
+        Fs::Fat => a2kit::fs::fat::new_fimg(chunk_len, false, "TEST.TXT").expect("new_fimg"),
+    }
+}
+
+/// data given either literally (hex) or as a pattern `@len,a,b` (byte i = (a*i+b) mod 256) so
+/// that 64 KiB inputs do not have to travel through the protocol
+#[derive(Clone)]
+pub struct Data { pub spec: String, pub bytes: Vec<u8> }
+impl Data {
+    pub fn lit(b: Vec<u8>) -> Data { Data { spec: hx(&b), bytes: b } }
+    pub fn pat(len: usize, a: usize, b: usize) -> Data {
+        Data { spec: format!("@{},{},{}", len, a, b), bytes: (0..len).map(|i| ((a * i + b) % 256) as u8).collect() }
+    }
+    pub fn gen(rng: &mut Rng, len: usize) -> Data {
+        if len <= 600 { Data::lit(rng.bytes(len)) } else { let a = rng.range(1, 255); let b = rng.below(256); Data::pat(len, a, b) }
+    }
+}
+
+/// panic site as a stable key: path from `src/` on, without the line number
+pub fn site(p: &str) -> String {
+    let s = p.split(" [").next().unwrap_or(p);
+    let s = match s.find("src/") { Some(i) => &s[i..], None => s };
+    s.split(':').next().unwrap_or(s).to_string()
+}
+
+pub fn digest(b: &[u8]) -> String {
+    if b.len() <= 24 { format!("{}:{}", b.len(), hx(b)) } else { format!("{}:#{:016X}", b.len(), fnv(b)) }
+}
+
+/// canonical rendering of the fields a packer may touch; chunks in key order
+pub fn img_digest(f: &FileImage) -> String {
+    let mut keys: Vec<usize> = f.chunks.keys().cloned().collect();
+    keys.sort_unstable();
+    let mut canon: Vec<u8> = Vec::new();
+    for k in &keys {
+        let c = &f.chunks[k];
+        canon.extend_from_slice(&(*k as u64).to_le_bytes());
+        canon.extend_from_slice(&(c.len() as u64).to_le_bytes());
+        canon.extend_from_slice(c);
+    }
+    format!("eof={} typ={} aux={} acc={} n={} ch={}", hx(&f.eof), hx(&f.fs_type), hx(&f.aux), hx(&f.access), keys.len(), digest(&canon))
+}
+
+pub fn init_spec(f: &FileImage) -> String {
+    format!("{}/{}/{}/{}", hx(&f.eof), hx(&f.fs_type), hx(&f.aux), hx(&f.access))
+}
+
+fn res_bytes(r: Result<Result<Vec<u8>, Box<dyn std::error::Error>>, String>) -> (String, Option<Vec<u8>>, Option<String>) {
+    match r {
+        Err(p) => ("panic".to_string(), None, Some(p)),
+        Ok(Err(_)) => ("err".to_string(), None, None),
+        Ok(Ok(v)) => (format!("ok:{}", digest(&v)), Some(v), None),
+    }
+}
+
+/// which behaviour the code under test exhibits for the two length fields that can wrap
+/// (`w` = wraps silently, `c` = refuses); decided by probing the real code once
+pub struct Variant { pub dos: char, pub prodos: char, pub deduce: char }
+impl Variant {
+    pub fn probe() -> Variant {
+        let zeros = vec![0u8; 65536];
+        let mut f = new_fimg(Fs::Dos, 256);
+        let dos = match guarded(|| f.pack_bin(&zeros, Some(0x300), None)) { Ok(Ok(())) => 'w', _ => 'c' };
+        let zeros = vec![0u8; 1 << 24];
+        let mut f = new_fimg(Fs::Prodos, 512);
+        let prodos = match guarded(|| f.pack_bin(&zeros, Some(0x300), None)) { Ok(Ok(())) => 'w', _ => 'c' };
+        let mut f = new_fimg(Fs::Prodos, 512);
+        let deduce = match guarded(|| f.pack_tok(&[], ItemType::ApplesoftTokens, None)) { Err(_) => 'p', _ => 't' };
+        Variant { dos, prodos, deduce }
+    }
+    pub fn spec(&self) -> String { format!("{}{}{}", self.dos, self.prodos, self.deduce) }
+}
+
+const CHUNKS: [usize; 8] = [1, 2, 3, 7, 128, 256, 512, 1024];
+
+fn pick_len(rng: &mut Rng, chunk: usize, sel: usize) -> usize {
+    match sel % 12 {
+        0 => 0,
+        1 => 1,
+        2 => rng.range(2, 5),
+        3 => chunk.saturating_sub(1),
+        4 => chunk,
+        5 => chunk + 1,
+        6 => 2 * chunk + rng.below(3) - 1,
+        7 => 65530 + rng.below(10),          // around 64 KiB - header
+        8 => 65536 + rng.below(3) - 1,       // 64 KiB ± 1
+        9 => { let k = rng.below(3); [65534usize, 65538, 70000][k] }
+        10 => rng.range(6, 600),
+        _ => rng.range(600, 5000),
+    }
+}
+
+fn pick_addr(rng: &mut Rng, sel: usize) -> Option<usize> {
+    match sel % 9 {
+        0 => Some(0),
+        1 => Some(0xFFFF),
+        2 => Some(0x10000),
+        3 => None,
+        4 => Some(0x801),
+        5 => Some(0x10001 + rng.below(1 << 20)),
+        6 => Some(usize::MAX - rng.below(3)),
+        _ => Some(rng.below(0x10000)),
+    }
+}
+
+fn addr_spec(a: Option<usize>) -> String { match a { Some(v) => v.to_string(), None => "none".to_string() } }
+
+/// a token stream that looks like a tokenized Applesoft program loaded at `base`:
+/// lines `link(2) lineno(2) tokens.. 00`, end marker 00 00
+fn gen_tokens(rng: &mut Rng, base: usize, lines: usize) -> Vec<u8> {
+    let mut out: Vec<u8> = Vec::new();
+    let mut addr = base;
+    for l in 0..lines {
+        let n = rng.range(1, 12);
+        let next = addr + 4 + n + 1;
+        out.extend_from_slice(&((next & 0xffff) as u16).to_le_bytes());
+        out.extend_from_slice(&(((l + 1) * 10) as u16).to_le_bytes());
+        for _ in 0..n { out.push(rng.range(1, 255) as u8); }
+        out.push(0);
+        addr = next;
+    }
+    out.extend_from_slice(&[0, 0]);
+    out
+}
+
+// ------------------------------------------------------------------------------------------------
+// section A: bin / tok / raw
+// ------------------------------------------------------------------------------------------------
+
+fn case_bin(ctx: &mut Ctx, idx: usize, rng: &mut Rng, var: &Variant, fs: Fs, sel: usize) {
+    let chunk = CHUNKS[(sel / 7) % CHUNKS.len()];
+    let len = pick_len(rng, chunk, sel);
+    let data = Data::gen(rng, len);
+    let addr = pick_addr(rng, sel / 3 + sel);
+    let trailing: Vec<u8> = if sel % 5 == 4 { let n = rng.range(1, 9); rng.bytes(n) } else { vec![] };
+    let mut f = new_fimg(fs, chunk);
+    let init = init_spec(&f);
+    let req = format!("c13 bin {} {} {} {} {} {} {}", fs.name(), var.spec(), chunk, init, data.spec, addr_spec(addr), hx(&trailing));
+    let tr = if trailing.is_empty() { None } else { Some(trailing.as_slice()) };
+    let packed = guarded(|| f.pack_bin(&data.bytes, addr, tr));
+    let case = format!("idx={} bin fs={} chunk={} len={} addr={} trailing={} data={}", idx, fs.name(), chunk, len, addr_spec(addr), trailing.len(), data.spec.chars().take(80).collect::<String>());
+    ctx.out.count(&format!("bin:{}", fs.name()));
+    // what the property demands, stated independently of the model
+    let addr_ok = match addr { Some(a) => a < 0x10000, None => false };
+    let representable = match fs {
+        Fs::Dos => addr_ok && len < 0x10000,
+        Fs::Prodos => addr_ok && len + trailing.len() < (1 << 24),
+        _ => true,
+    };
+    let expect: Vec<u8> = match fs { Fs::Dos => data.bytes.clone(), _ => [data.bytes.clone(), trailing.clone()].concat() };
+    let ans;
+    match packed {
+        Err(p) => {
+            ans = "panic".to_string();
+            ctx.out.oracle(false, "pack_bin-does-not-panic", &format!("panic:{}", site(&p)), &case);
+        }
+        Ok(Err(_)) => {
+            ans = "err".to_string();
+            ctx.out.count("bin:refused");
+            ctx.out.oracle(!representable, "pack_bin-accepts-representable", &format!("{}/pack_bin/refused-representable", fs.module()), &case);
+        }
+        Ok(Ok(())) => {
+            let la = guarded(|| f.get_load_address());
+            let (un_s, un, un_p) = res_bytes(guarded(|| f.unpack_bin()));
+            ans = format!("ok {} la={} un={}", img_digest(&f), match &la { Ok(v) => v.to_string(), Err(_) => "panic".to_string() }, un_s);
+            if let Some(p) = un_p { ctx.out.oracle(false, "unpack_bin-does-not-panic", &format!("panic:{}", site(&p)), &case); }
+            let same = un.as_ref() == Some(&expect);
+            let sig = if !representable && fs == Fs::Dos { "dos3x/pack_bin/length-wraps-u16".to_string() }
+                else if !representable && fs == Fs::Prodos && addr_ok { "prodos/pack_bin/eof-wraps-24bit".to_string() }
+                else { format!("{}/pack_bin/roundtrip-differs", fs.module()) };
+            ctx.out.oracle(same, "unpack_bin(pack_bin(x))==x", &sig, &case);
+            if matches!(fs, Fs::Dos | Fs::Prodos) && chunk >= 3 {
+                let la_ok = match (&la, addr) { (Ok(v), Some(a)) => *v as usize == a, _ => false };
+                ctx.out.oracle(la_ok, "load-address-recovered", &format!("{}/pack_bin/load-address-lost", fs.module()), &case);
+            }
+        }
+    }
+    ctx.out.q(&req, &ans);
+    ctx.out.case(req.as_bytes(), len > 0);
+    ctx.out.sample(&case);
+}
+
+fn case_tok(ctx: &mut Ctx, idx: usize, rng: &mut Rng, var: &Variant, fs: Fs, sel: usize) {
+    let chunk = CHUNKS[(sel / 5) % CHUNKS.len()];
+    let lang_sel = sel % 3;
+    let (lang, lang_s) = match lang_sel { 0 => (ItemType::ApplesoftTokens, "a"), 1 => (ItemType::IntegerTokens, "i"), _ => (ItemType::MerlinTokens, "o") };
+    // well-formed programs, arbitrary bytes, and long streams
+    let shape = (sel / 3) % 6;
+    let data = match shape {
+        0 => { let n = rng.range(1, 6); Data::lit(gen_tokens(rng, 0x801, n)) }
+        1 => { let b = rng.range(0x100, 0xF000); let n = rng.range(0, 3); Data::lit(gen_tokens(rng, b, n)) }
+        2 => { let n = rng.below(12); Data::lit(rng.bytes(n)) }
+        3 => { let s3 = 7 + rng.below(3); let l = pick_len(rng, chunk, s3); let a = rng.range(1, 255); let b = rng.range(1, 255); Data::pat(l, a, b) }
+        4 => { let l = rng.range(0, 8); let b = rng.range(1, 255) as u8; Data::lit(vec![b; l]) }
+        _ => { let n = rng.range(20, 200); let mut t = gen_tokens(rng, 0x801, n); let k = rng.range(5, t.len()); t.truncate(k); Data::lit(t) }
+    };
+    let len = data.bytes.len();
+    let trailing: Vec<u8> = if sel % 7 == 6 { let n = rng.range(1, 5); rng.bytes(n) } else { vec![] };
+    let mut f = new_fimg(fs, chunk);
+    let init = init_spec(&f);
+    let req = format!("c13 tok {} {} {} {} {} {} {}", fs.name(), var.spec(), chunk, init, data.spec, lang_s, hx(&trailing));
+    let tr = if trailing.is_empty() { None } else { Some(trailing.as_slice()) };
+    let packed = guarded(|| f.pack_tok(&data.bytes, lang, tr));
+    let case = format!("idx={} tok fs={} chunk={} len={} lang={} trailing={} data={}", idx, fs.name(), chunk, len, lang_s, trailing.len(), data.spec.chars().take(80).collect::<String>());
+    ctx.out.count(&format!("tok:{}", fs.name()));
+    let supported = matches!(fs, Fs::Dos | Fs::Prodos) && lang_sel < 2;
+    let representable = supported && match fs { Fs::Dos => len < 0x10000, _ => len + trailing.len() < (1 << 24) };
+    let expect: Vec<u8> = match fs { Fs::Dos => data.bytes.clone(), _ => [data.bytes.clone(), trailing.clone()].concat() };
+    let ans;
+    match packed {
+        Err(p) => {
+            ans = "panic".to_string();
+            // ProDOS/Applesoft computes the load address from the token stream with unchecked indexing
+            let sig = if site(&p).starts_with("src/lang/applesoft/mod.rs") { "prodos/pack_tok/deduce_address-panics".to_string() } else { format!("panic:{}", site(&p)) };
+            ctx.out.oracle(false, "pack_tok-does-not-panic", &sig, &case);
+        }
+        Ok(Err(_)) => {
+            ans = "err".to_string();
+            ctx.out.count("tok:refused");
+            ctx.out.oracle(!representable, "pack_tok-accepts-representable", &format!("{}/pack_tok/refused-representable", fs.module()), &case);
+        }
+        Ok(Ok(())) => {
+            let (un_s, un, un_p) = res_bytes(guarded(|| f.unpack_tok()));
+            ans = format!("ok {} un={}", img_digest(&f), un_s);
+            if let Some(p) = un_p { ctx.out.oracle(false, "unpack_tok-does-not-panic", &format!("panic:{}", site(&p)), &case); }
+            let same = un.as_ref() == Some(&expect);
+            let sig = if !representable && fs == Fs::Dos { "dos3x/pack_tok/length-wraps-u16".to_string() }
+                else { format!("{}/pack_tok/roundtrip-differs", fs.module()) };
+            ctx.out.oracle(same, "unpack_tok(pack_tok(x))==x", &sig, &case);
+        }
+    }
+    ctx.out.q(&req, &ans);
+    ctx.out.case(req.as_bytes(), len > 0 && supported);
+    ctx.out.sample(&case);
+}
+
+fn case_raw(ctx: &mut Ctx, idx: usize, rng: &mut Rng, var: &Variant, fs: Fs, sel: usize) {
+    let chunk = CHUNKS[(sel / 3) % CHUNKS.len()];
+    let len = pick_len(rng, chunk, sel);
+    let data = Data::gen(rng, len);
+    let trunc = sel % 2 == 0;
+    let mut f = new_fimg(fs, chunk);
+    let init = init_spec(&f);
+    let req = format!("c13 raw {} {} {} {} {} {}", fs.name(), var.spec(), chunk, init, data.spec, if trunc { 1 } else { 0 });
+    let packed = guarded(|| f.pack_raw(&data.bytes));
+    let case = format!("idx={} raw fs={} chunk={} len={} trunc={} data={}", idx, fs.name(), chunk, len, trunc, data.spec.chars().take(80).collect::<String>());
+    ctx.out.count(&format!("raw:{}", fs.name()));
+    let ans;
+    match packed {
+        Err(p) => {
+            ans = "panic".to_string();
+            ctx.out.oracle(false, "pack_raw-does-not-panic", &format!("panic:{}", site(&p)), &case);
+        }
+        Ok(Err(_)) => {
+            ans = "err".to_string();
+            ctx.out.oracle(false, "pack_raw-accepts-representable", &format!("{}/pack_raw/refused-representable", fs.module()), &case);
+        }
+        Ok(Ok(())) => {
+            let (un_s, un, un_p) = res_bytes(guarded(|| f.unpack_raw(trunc)));
+            let seq = f.sequence();
+            ans = format!("ok {} un={} seq={}", img_digest(&f), un_s, digest(&seq));
+            if let Some(p) = un_p { ctx.out.oracle(false, "unpack_raw-does-not-panic", &format!("panic:{}", site(&p)), &case); }
+            ctx.out.oracle(un.as_ref() == Some(&data.bytes), "unpack_raw(pack_raw(x))==x", &format!("{}/pack_raw/roundtrip-differs", fs.module()), &case);
+            ctx.out.oracle(seq == data.bytes, "sequence(desequence(x))==x", "fimg/sequence-desequence-differs", &case);
+        }
+    }
+    ctx.out.q(&req, &ans);
+    ctx.out.case(req.as_bytes(), len > 0);
+    ctx.out.sample(&case);
+}
+
+/// the 16 MiB ProDOS boundary (oracle only: such inputs are not sent through the line protocol)
+fn case_prodos_16m(ctx: &mut Ctx, idx: usize, which: usize) {
+    let len: usize = (1 << 24) - 1 + which;       // 2^24-1 (largest ProDOS file), 2^24
+    let data: Vec<u8> = (0..len).map(|i| (i % 251) as u8).collect();
+    let mut f = new_fimg(Fs::Prodos, 512);
+    let case = format!("idx={} bin fs=prodos chunk=512 len={} addr=8192 data=i%251", idx, len);
+    let representable = len < (1 << 24);
+    match guarded(|| f.pack_bin(&data, Some(0x2000), None)) {
+        Err(p) => ctx.out.oracle(false, "pack_bin-does-not-panic", &format!("panic:{}", site(&p)), &case),
+        Ok(Err(_)) => ctx.out.oracle(!representable, "pack_bin-accepts-representable", "prodos/pack_bin/refused-representable", &case),
+        Ok(Ok(())) => {
+            let un = guarded(|| f.unpack_bin());
+            let same = match un { Ok(Ok(v)) => v == data, _ => false };
+            ctx.out.oracle(same, "unpack_bin(pack_bin(x))==x", if representable { "prodos/pack_bin/roundtrip-differs" } else { "prodos/pack_bin/eof-wraps-24bit" }, &case);
+        }
+    }
+    ctx.out.count("bin:prodos-16MiB");
+    ctx.out.case(case.as_bytes(), true);
+}
+
+// ------------------------------------------------------------------------------------------------
+// section B: text
+// ------------------------------------------------------------------------------------------------
+
+fn printable_line(rng: &mut Rng, len: usize, indent: usize) -> String {
+    let mut s = String::new();
+    for _ in 0..indent { s.push(' '); }
+    for k in 0..len {
+        // mostly letters, some blanks and punctuation; the first character after the indent is not a blank
+        let c = match rng.below(10) { 0 if k > 0 => b' ', 1 => rng.range(0x21, 0x2f) as u8, 2 => rng.range(0x5b, 0x7e) as u8, _ => rng.range(0x41, 0x5a) as u8 };
+        s.push(c as char);
+    }
+    s
+}
+
+/// (text, in_domain): in_domain = non-empty, printable-ASCII lines each ending in `\n`
+fn gen_text(rng: &mut Rng, sel: usize) -> (String, bool, &'static str) {
+    let mut t = String::new();
+    match sel % 16 {
+        0..=4 => { // ordinary program-like text
+            let n = rng.range(1, 40);
+            for _ in 0..n { let l = rng.below(60); let ind = if rng.chance(40) { rng.below(12) } else { 0 }; t += &printable_line(rng, l, ind); t.push('\n'); }
+            (t, true, "lines")
+        }
+        5 => { // several pages of Pascal text, lines that straddle the 1 KiB boundary
+            let n = rng.range(30, 160);
+            for _ in 0..n { let l = rng.range(20, 90); let ind = rng.below(6); t += &printable_line(rng, l, ind); t.push('\n'); }
+            (t, true, "pages")
+        }
+        6 => { // long lines around the page size
+            let n = rng.range(1, 4);
+            for _ in 0..n { let l = rng.range(1000, 1030); t += &printable_line(rng, l, 0); t.push('\n'); let l2 = rng.below(30); t += &printable_line(rng, l2, 0); t.push('\n'); }
+            (t, true, "long-lines")
+        }
+        7 => { // deep indents around the 223 cap, blank-only lines, empty lines
+            let n = rng.range(1, 8);
+            for _ in 0..n {
+                match rng.below(4) {
+                    0 => { let ind = rng.range(220, 230); let l = rng.below(5); t += &printable_line(rng, l, ind); }
+                    1 => { let ind = rng.range(1, 40); t += &printable_line(rng, 0, ind); }
+                    2 => {}
+                    _ => { let l = rng.range(1, 20); let ind = rng.range(1, 3); t += &printable_line(rng, l, ind); }
+                }
+                t.push('\n');
+            }
+            (t, true, "indents")
+        }
+        8 => { // exactly page-filling line lengths
+            let n = rng.range(8, 40);
+            for _ in 0..n { let l = [15usize, 31, 63, 127, 255, 61, 125][rng.below(7)]; t += &printable_line(rng, l, 0); t.push('\n'); }
+            (t, true, "page-fit")
+        }
+        9 => { let n = rng.range(1, 5); for _ in 0..n { let l = rng.below(30); t += &printable_line(rng, l, 0); t.push('\n'); } let l = rng.range(1, 20); t += &printable_line(rng, l, 0); (t, false, "no-final-newline") }
+        10 => { let n = rng.range(1, 6); for _ in 0..n { let l = rng.below(30); let ind = rng.below(4); t += &printable_line(rng, l, ind); t += "\r\n"; } (t, false, "crlf") }
+        11 => { // non-ASCII at assorted places
+            let n = rng.range(1, 5);
+            let at = rng.below(n);
+            for k in 0..n {
+                if k == at { match rng.below(4) { 0 => { t += "\u{e9}abc"; } 1 => { t += "  \u{e9}"; } 2 => { t += "ab\u{1F600}cd"; } _ => { t += "x\u{a0}"; } } }
+                else { let l = rng.below(20); t += &printable_line(rng, l, 0); }
+                t.push('\n');
+            }
+            (t, false, "non-ascii")
+        }
+        12 => { // control characters, NUL, ^Z, DLE, DEL, lone CR, tabs
+            let n = rng.range(1, 5);
+            for _ in 0..n { let l = rng.below(10); t += &printable_line(rng, l, 0); t.push([0x00u8, 0x09, 0x0d, 0x10, 0x1a, 0x7f, 0x1f, 0x0c][rng.below(8)] as char); let l = rng.below(10); t += &printable_line(rng, l, 0); t.push('\n'); }
+            (t, false, "control")
+        }
+        13 => { let n = rng.below(3); for _ in 0..n { t += "AB\n"; } let k = rng.range(1, 6); for _ in 0..k { t.push(' '); } (t, false, "trailing-blanks") }
+        14 => (String::new(), false, "empty"),
+        _ => { let n = rng.range(1, 3); for _ in 0..n { t.push('\n'); } (t, true, "newlines-only") }
+    }
+}
+
+fn case_txt(ctx: &mut Ctx, idx: usize, rng: &mut Rng, var: &Variant, fs: Fs, sel: usize) {
+    let chunk = [128usize, 256, 512, 1024, 100][(sel / 16) % 5];
+    let (text, in_domain, shape) = gen_text(rng, sel);
+    let mut f = new_fimg(fs, chunk);
+    let init = init_spec(&f);
+    let req = format!("c13 txt {} {} {} {} {}", fs.name(), var.spec(), chunk, init, hx(text.as_bytes()));
+    let packed = guarded(|| f.pack_txt(&text));
+    let show: String = text.chars().take(60).collect::<String>().escape_default().to_string();
+    let case = format!("idx={} txt fs={} chunk={} shape={} len={} text={}", idx, fs.name(), chunk, shape, text.len(), show);
+    ctx.out.count(&format!("txt:{}", fs.name()));
+    ctx.out.count(&format!("txt-shape:{}", shape));
+    let non_ascii = !text.is_ascii();
+    // Pascal cannot store a line that does not fit a 1 KiB page
+    let pascal_too_long = fs == Fs::Pascal && text.split('\n').any(|l| l.len() + 4 > 1024);
+    let ans;
+    match packed {
+        Err(p) => {
+            ans = "panic".to_string();
+            ctx.out.oracle(false, "pack_txt-does-not-panic", &format!("panic:{}", site(&p)), &case);
+        }
+        Ok(Err(_)) => {
+            ans = "err".to_string();
+            ctx.out.count("txt:refused");
+            let acceptable = !in_domain || pascal_too_long;
+            ctx.out.oracle(acceptable, "pack_txt-accepts-representable", &format!("{}/pack_txt/refused-representable", fs.module()), &case);
+        }
+        Ok(Ok(())) => {
+            let un = guarded(|| f.unpack_txt());
+            let (un_s, un_v) = match un {
+                Err(p) => { ctx.out.oracle(false, "unpack_txt-does-not-panic", &format!("panic:{}", site(&p)), &case); ("panic".to_string(), None) }
+                Ok(Err(_)) => ("err".to_string(), None),
+                Ok(Ok(s)) => (format!("ok:{}", digest(s.as_bytes())), Some(s)),
+            };
+            ans = format!("ok {} un={}", img_digest(&f), un_s);
+            if non_ascii {
+                ctx.out.oracle(false, "pack_txt-refuses-non-ascii", &format!("{}/pack_txt/non-ascii-accepted", fs.module()), &case);
+            }
+            if in_domain {
+                ctx.out.oracle(un_v.as_deref() == Some(text.as_str()), "unpack_txt(pack_txt(t))==t", &format!("{}/pack_txt/roundtrip-differs", fs.module()), &case);
+            }
+        }
+    }
+    ctx.out.q(&req, &ans);
+    ctx.out.case(req.as_bytes(), in_domain && !text.is_empty());
+    ctx.out.sample(&case);
+}
+
+/// the converters themselves (they are also used with other terminators by the record code) and
+/// the decoders on arbitrary bytes
+fn case_conv(ctx: &mut Ctx, idx: usize, rng: &mut Rng, fs: Fs, sel: usize) {
+    use a2kit::fs::TextConversion;
+    let term: Vec<u8> = match (fs, sel % 3) { (_, 0) => vec![], (Fs::Dos, _) => vec![0x8d], (Fs::Cpm, 1) | (Fs::Fat, 1) => vec![0x0d, 0x0a], _ => vec![0x0d] };
+    let (text, _, _) = gen_text(rng, sel / 3);
+    let text: String = text.chars().take(400).collect();
+    let enc = |t: &str| -> Result<Option<Vec<u8>>, String> {
+        match fs {
+            Fs::Dos => guarded(|| a2kit::fs::dos3x::types::TextConverter::new(term.clone()).from_utf8(t)),
+            Fs::Prodos => guarded(|| a2kit::fs::prodos::types::TextConverter::new(term.clone()).from_utf8(t)),
+            Fs::Pascal => guarded(|| a2kit::fs::pascal::types::TextConverter::new(term.clone()).from_utf8(t)),
+            _ => guarded(|| a2kit::fs::cpm::types::TextConverter::new(term.clone()).from_utf8(t)),
+        }
+    };
+    let a = match enc(&text) { Err(_) => "panic".to_string(), Ok(None) => "err".to_string(), Ok(Some(v)) => format!("ok:{}", digest(&v)) };
+    ctx.out.q(&format!("c13 conv {} {} {}", fs.name(), hx(&term), hx(text.as_bytes())), &a);
+    // decoder on arbitrary bytes
+    let n = rng.below(40);
+    let src: Vec<u8> = (0..n).map(|_| match rng.below(6) { 0 => 0x10, 1 => 0x0d, 2 => rng.byte(), 3 => 0x8d, 4 => rng.range(0, 0x30) as u8, _ => rng.range(0x20, 0x7e) as u8 }).collect();
+    let dec = match fs {
+        Fs::Dos => guarded(|| a2kit::fs::dos3x::types::TextConverter::new(vec![]).to_utf8(&src)),
+        Fs::Prodos => guarded(|| a2kit::fs::prodos::types::TextConverter::new(vec![]).to_utf8(&src)),
+        Fs::Pascal => guarded(|| a2kit::fs::pascal::types::TextConverter::new(vec![]).to_utf8(&src)),
+        _ => guarded(|| a2kit::fs::cpm::types::TextConverter::new(vec![]).to_utf8(&src)),
+    };
+    let d = match dec { Err(_) => "panic".to_string(), Ok(None) => "err".to_string(), Ok(Some(s)) => format!("ok:{}", digest(s.as_bytes())) };
+    ctx.out.q(&format!("c13 toutf8 {} {}", fs.name(), hx(&src)), &d);
+    ctx.out.count("conv");
+    ctx.out.case(format!("{} {} {}", idx, hx(text.as_bytes()), hx(&src)).as_bytes(), !text.is_empty());
+}
+
+// ------------------------------------------------------------------------------------------------
+// section E: hex escapes
+// ------------------------------------------------------------------------------------------------
+
+fn case_esc(ctx: &mut Ctx, idx: usize, rng: &mut Rng, sel: usize) {
+    let n = rng.below(24);
+    let shape = sel % 6;
+    let bytes: Vec<u8> = (0..n).map(|_| match shape {
+        0 => rng.byte(),
+        1 => rng.range(0xa0, 0xfe) as u8,                                 // negative printable (DOS names)
+        2 => rng.range(0x20, 0x7e) as u8,
+        3 => [0x5cu8, b'x', b'4', b'1', b'F', b'f', 0xdc, 0xf8][rng.below(8)],   // backslashes and hex digits
+        4 => [0xdcu8, 0xf8, 0xb4, 0xb1, 0xc1, 0xe1][rng.below(6)],        // the same in negative ASCII
+        _ => rng.range(0xc1, 0xda) as u8,                                 // negative upper case
+    }).collect();
+    // fixed seeds: a literal backslash-x-hex-hex in positive and in negative ASCII
+    let bytes: Vec<u8> = match sel { 0 => vec![0x5c, b'x', b'4', b'1'], 1 => vec![0xc8, 0xdc, 0xf8, 0xb4, 0xb1], 2 => vec![0x5c], _ => bytes };
+    let n = bytes.len();
+    let case = format!("idx={} esc bytes={}", idx, hx(&bytes));
+    // does the code under test escape a literal backslash?
+    let esc_bs = a2kit::escaped_ascii_from_bytes(&vec![0x5c], true, false).len() > 1;
+    ctx.out.count(if esc_bs { "variant:escape-backslash" } else { "variant:literal-backslash" });
+    for (cc, inv) in [(true, true), (true, false), (false, false), (false, true)] {
+        let e = guarded(|| a2kit::escaped_ascii_from_bytes(&bytes, cc, inv));
+        let a = match &e { Ok(s) => digest(s.as_bytes()), Err(_) => "panic".to_string() };
+        ctx.out.q(&format!("c13 esc {} {} {} {}", esc_bs as u8, cc as u8, inv as u8, hx(&bytes)), &a);
+        if let Ok(s) = e {
+            for caps in [true, false] {
+                let back = guarded(|| a2kit::parse_escaped_ascii(&s, inv, caps));
+                let b = match &back { Ok(v) => digest(v), Err(_) => "panic".to_string() };
+                ctx.out.q(&format!("c13 unesc {} {} {}", inv as u8, caps as u8, hx(s.as_bytes())), &b);
+                // the pair a2kit itself uses for DOS 3.x file names: escape(cc, inverted) / parse(inverted, caps)
+                if cc && inv && caps {
+                    let same = back.as_ref().ok() == Some(&bytes);
+                    let lower = bytes.iter().any(|b| (0xe1..=0xfa).contains(b));
+                    let lit = bytes.windows(4).any(|w| w[0] == 0xdc && w[1] == 0xf8 && ((w[2] & 0x7f) as char).is_ascii_hexdigit() && ((w[3] & 0x7f) as char).is_ascii_hexdigit() && w[2] >= 0xa0 && w[3] >= 0xa0);
+                    let sig = if lit { "escape/literal-backslash-x-not-escaped" } else if lower { "escape/dos-name-lower-case-folded" } else { "escape/roundtrip-differs" };
+                    // lower-case folding is what `caps` asks for; it is reported in the distribution, not as a failure
+                    if lower { ctx.out.count("esc:lower-case-folded"); } else { ctx.out.oracle(same, "parse_escaped(escape(b))==b", sig, &case); }
+                }
+                if cc && !inv && !caps {
+                    let same = back.as_ref().ok() == Some(&bytes);
+                    let lit = bytes.windows(4).any(|w| w[0] == 0x5c && w[1] == b'x' && (w[2] as char).is_ascii_hexdigit() && (w[3] as char).is_ascii_hexdigit());
+                    ctx.out.oracle(same, "parse_escaped(escape(b))==b", if lit { "escape/literal-backslash-x-not-escaped" } else { "escape/roundtrip-differs" }, &case);
+                }
+            }
+        }
+    }
+    // parse on arbitrary ASCII strings
+    let m = rng.below(20);
+    let s: String = (0..m).map(|_| [b'\\', b'x', b'X', b'4', b'a', b'F', b'g', b' ', b'z', b'\\'][rng.below(10)] as char).collect();
+    for (inv, caps) in [(true, true), (false, false), (true, false), (false, true)] {
+        let back = guarded(|| a2kit::parse_escaped_ascii(&s, inv, caps));
+        let b = match &back { Ok(v) => digest(v), Err(_) => "panic".to_string() };
+        ctx.out.q(&format!("c13 unesc {} {} {}", inv as u8, caps as u8, hx(s.as_bytes())), &b);
+    }
+    ctx.out.count("esc");
+    ctx.out.case(case.as_bytes(), n > 0);
+    ctx.out.sample(&case);
+}
+
+// ------------------------------------------------------------------------------------------------
+// section C: random-access records
+// ------------------------------------------------------------------------------------------------
+
+fn render_recs(m: &std::collections::HashMap<usize, String>) -> String {
+    let mut keys: Vec<usize> = m.keys().cloned().collect();
+    keys.sort_unstable();
+    if keys.is_empty() { return "-".to_string(); }
+    keys.iter().map(|k| format!("{}:{}", k, digest(m[k].as_bytes()))).collect::<Vec<String>>().join(",")
+}
+
+/// printable text of exactly `len` bytes, made of lines, ending in a newline
+fn record_text(rng: &mut Rng, len: usize) -> String {
+    let mut s = String::new();
+    for k in 0..len {
+        if k + 1 == len || (k > 0 && rng.chance(8)) { s.push('\n'); } else { s.push(rng.range(0x21, 0x7e) as u8 as char); }
+    }
+    s
+}
+
+/// `s` = from_fimg wants every chunk a record could touch (HEAD), `z` = holes read as zeros (repaired)
+fn rec_variant() -> char {
+    let mut recs = a2kit::fs::Records::new(128);
+    recs.add_record(1, "A\n");
+    let mut f = new_fimg(Fs::Dos, 256);
+    let _ = f.pack_rec(&recs);
+    match f.unpack_rec(Some(128)) { Ok(r) if r.map.get(&1).map(|s| s.as_str()) == Some("A\n") => 'z', _ => 's' }
+}
+
+fn case_rec(ctx: &mut Ctx, idx: usize, rng: &mut Rng, fs: Fs, sel: usize) {
+    let chunk = match fs { Fs::Dos => [256usize, 256, 128, 100][sel % 4], _ => [512usize, 512, 256, 1024][sel % 4] };
+    let rec_len = [2usize, 3, 5, 17, 64, 127, 128, 129, 255, 256, 257, 300, 512, 40][(sel / 4) % 14];
+    let n = rng.range(1, 5);
+    let overlong = sel % 11 == 10;     // one record longer than the record length (documented to corrupt neighbours)
+    let mut recs = a2kit::fs::Records::new(rec_len);
+    let mut stored: Vec<(usize, String)> = Vec::new();
+    for _ in 0..(if overlong { 1 } else { n }) {
+        // record numbers whose bytes straddle / touch a chunk boundary, or small ones
+        let num = match rng.below(4) {
+            0 => rng.below(8),
+            _ => { let c = rng.range(1, 6) * chunk; (c / rec_len + rng.below(3)).saturating_sub(1) }
+        };
+        if stored.iter().any(|(k, _)| *k == num) { continue; }
+        let len = if overlong { rec_len + rng.range(1, 3) } else { match rng.below(4) { 0 => rec_len, 1 => 1, _ => rng.range(1, rec_len) } };
+        let text = record_text(rng, len);
+        recs.add_record(num, &text);
+        stored.push((num, text));
+    }
+    stored.sort();
+    let mut f = new_fimg(fs, chunk);
+    let init = init_spec(&f);
+    let un_len: Option<usize> = if fs == Fs::Prodos && sel % 3 == 0 { None } else { Some(rec_len) };
+    let spec = stored.iter().map(|(k, t)| format!("{}:{}", k, hx(t.as_bytes()))).collect::<Vec<String>>().join(",");
+    let req = format!("c13 rec {} {} {} {} {} {} {}", rec_variant(), fs.name(), chunk, init, rec_len, spec, addr_spec(un_len));
+    let case = format!("idx={} rec fs={} chunk={} rec_len={} records={}", idx, fs.name(), chunk, rec_len,
+        stored.iter().map(|(k, t)| format!("{}:{}", k, t.len())).collect::<Vec<String>>().join(","));
+    ctx.out.count(&format!("rec:{}", fs.name()));
+    let supported = matches!(fs, Fs::Dos | Fs::Prodos);
+    let packed = guarded(|| f.pack_rec(&recs));
+    let ans;
+    match packed {
+        Err(p) => { ans = "panic".to_string(); ctx.out.oracle(false, "pack_rec-does-not-panic", &format!("panic:{}", site(&p)), &case); }
+        Ok(Err(_)) => { ans = "err".to_string(); ctx.out.oracle(!supported, "pack_rec-accepts-representable", &format!("{}/pack_rec/refused-representable", fs.module()), &case); }
+        Ok(Ok(())) => {
+            let un = guarded(|| f.unpack_rec(un_len));
+            let un_s = match &un {
+                Err(p) => { ctx.out.oracle(false, "unpack_rec-does-not-panic", &format!("panic:{}", site(p)), &case); "panic".to_string() }
+                Ok(Err(_)) => "err".to_string(),
+                Ok(Ok(r)) => format!("ok:{}", render_recs(&r.map)),
+            };
+            ans = format!("ok {} un={}", img_digest(&f), un_s);
+            if !overlong {
+                let all = match &un { Ok(Ok(r)) => stored.iter().all(|(k, t)| r.map.get(k) == Some(t)), _ => false };
+                ctx.out.oracle(all, "unpack_rec(pack_rec(rs)) contains rs", &format!("{}/pack_rec/stored-record-not-returned", fs.module()), &case);
+            }
+        }
+    }
+    if !overlong || stored.len() == 1 { ctx.out.q(&req, &ans); }
+    ctx.out.case(req.as_bytes(), supported && !overlong);
+    ctx.out.sample(&case);
+}
+
+// ------------------------------------------------------------------------------------------------
+// section D: JSON
+// ------------------------------------------------------------------------------------------------
+
+#[derive(Clone)]
+enum T { Z, S(String), N(usize), A(Vec<T>), O(Vec<(String, T)>) }
+
+fn t_render(t: &T) -> String {
+    match t {
+        T::Z => "z".to_string(),
+        T::S(s) => format!("s{}", hx(s.as_bytes())),
+        T::N(n) => format!("n{}", n),
+        T::A(xs) => format!("a[{}]", xs.iter().map(t_render).collect::<Vec<String>>().join("|")),
+        T::O(kvs) => format!("o{{{}}}", kvs.iter().map(|(k, v)| format!("{}={}", hx(k.as_bytes()), t_render(v))).collect::<Vec<String>>().join(",")),
+    }
+}
+fn t_to_json(t: &T) -> json::JsonValue {
+    match t {
+        T::Z => json::JsonValue::Null,
+        T::S(s) => json::JsonValue::String(s.clone()),
+        T::N(n) => json::JsonValue::Number((*n).into()),
+        T::A(xs) => json::JsonValue::Array(xs.iter().map(t_to_json).collect()),
+        T::O(kvs) => { let mut o = json::JsonValue::new_object(); for (k, v) in kvs { o[k.as_str()] = t_to_json(v); } o }
+    }
+}
+fn json_to_t(j: &json::JsonValue) -> T {
+    if j.is_null() { T::Z }
+    else if let Some(s) = j.as_str() { T::S(s.to_string()) }
+    else if j.is_number() { T::N(j.as_usize().unwrap_or(usize::MAX)) }
+    else if j.is_array() { T::A(j.members().map(json_to_t).collect()) }
+    else if j.is_object() { T::O(j.entries().map(|(k, v)| (k.to_string(), json_to_t(v))).collect()) }
+    else { T::Z }
+}
+
+fn full_digest(f: &FileImage) -> String {
+    format!("ver={} fs={} cl={} {} accd={} cr={} md={} vs={} mv={} path={}", hx(f.fimg_version.as_bytes()), hx(f.file_system.as_bytes()), f.chunk_len,
+        img_digest(f), hx(&f.accessed), hx(&f.created), hx(&f.modified), hx(&f.version), hx(&f.min_version), hx(f.full_path.as_bytes()))
+}
+fn fimg_eq(a: &FileImage, b: &FileImage) -> bool {
+    a.fimg_version == b.fimg_version && a.file_system == b.file_system && a.chunk_len == b.chunk_len && a.eof == b.eof && a.fs_type == b.fs_type
+        && a.aux == b.aux && a.access == b.access && a.accessed == b.accessed && a.created == b.created && a.modified == b.modified
+        && a.version == b.version && a.min_version == b.min_version && a.full_path == b.full_path && a.chunks == b.chunks
+}
+
+fn gen_fimg(rng: &mut Rng, sel: usize) -> FileImage {
+    let fs = ALL_FS[sel % 5];
+    let mut f = new_fimg(fs, [128usize, 256, 512, 1024, 7][rng.below(5)]);
+    // contents: packed data, or a sparse chunk map
+    match (sel / 5) % 4 {
+        0 => { let n = rng.below(700); let d = rng.bytes(n); let _ = f.pack_raw(&d); }
+        1 => { let _ = f.pack_txt("10 PRINT \"HELLO\"\n20 END\n"); }
+        2 => { // sparse, keys that sort differently as strings ("10" < "9")
+            let n = rng.range(1, 6);
+            for _ in 0..n { let k = [0usize, 1, 2, 9, 10, 11, 99, 100, 255, 256, 65535, 65536, 1 << 20][rng.below(13)]; let l = rng.below(20); f.chunks.insert(k, rng.bytes(l)); }
+            f.eof = { let n = f.eof.len(); rng.bytes(n) };
+        }
+        _ => {}
+    }
+    match rng.below(8) { 0 => f.fimg_version = "2.0.0".to_string(), 1 => f.fimg_version = "2.1.5".to_string(), 2 => f.fimg_version = "3.0.0".to_string(), 3 => f.fimg_version = "10.2.33".to_string(), _ => {} }
+    if f.fimg_version == "2.0.0" && rng.chance(70) { f.accessed = vec![]; f.full_path = String::new(); }
+    else if rng.chance(30) { f.full_path = ["A\"B", "DIR/SUB\\X", "caf\u{e9}", "T\tAB", "", "x y"][rng.below(6)].to_string(); }
+    if rng.chance(30) { let l = rng.below(5); f.created = rng.bytes(l); let l = rng.below(5); f.aux = rng.bytes(l); }
+    f
+}
+
+fn fimg_to_t(f: &FileImage) -> T {
+    let mut keys: Vec<usize> = f.chunks.keys().cloned().collect();
+    keys.sort_unstable();
+    let h = |b: &Vec<u8>| T::S(hex::encode_upper(b));
+    T::O(vec![
+        ("fimg_version".to_string(), T::S(f.fimg_version.clone())), ("file_system".to_string(), T::S(f.file_system.clone())),
+        ("chunk_len".to_string(), T::N(f.chunk_len)), ("eof".to_string(), h(&f.eof)), ("fs_type".to_string(), h(&f.fs_type)),
+        ("aux".to_string(), h(&f.aux)), ("access".to_string(), h(&f.access)), ("accessed".to_string(), h(&f.accessed)),
+        ("created".to_string(), h(&f.created)), ("modified".to_string(), h(&f.modified)), ("version".to_string(), h(&f.version)),
+        ("min_version".to_string(), h(&f.min_version)), ("full_path".to_string(), T::S(f.full_path.clone())),
+        ("chunks".to_string(), T::O(keys.iter().map(|k| (k.to_string(), T::S(hex::encode_upper(&f.chunks[k])))).collect())),
+    ])
+}
+
+fn mutate_tree(rng: &mut Rng, t: &mut T, sel: usize) -> &'static str {
+    let T::O(kvs) = t else { return "none" };
+    match sel % 12 {
+        0 | 1 => "none",
+        2 => { let p = rng.below(kvs.len()); kvs.remove(p); "drop-field" }
+        3 => { let p = rng.below(kvs.len()); kvs[p].1 = T::N(7); "field-number" }
+        4 => { let p = rng.range(3, 11); if let T::S(s) = &mut kvs[p].1 { s.push('A'); } "hex-odd" }
+        5 => { let p = rng.range(3, 11); if let T::S(s) = &mut kvs[p].1 { *s = s.to_lowercase(); s.push_str("ff"); } "hex-lower" }
+        6 => { let v = ["abc", "2.1", "2..0", "1.9.9", "2.1.0.5", "02.01.00", "", "2.x.0", "+2.+1.+0"][rng.below(9)]; kvs[0].1 = T::S(v.to_string()); "version" }
+        7 => { if let T::O(cs) = &mut kvs[13].1 { if !cs.is_empty() { cs[0].0 = format!("x{}", cs[0].0); } } "chunk-key" }
+        8 => { if let T::O(cs) = &mut kvs[13].1 { if !cs.is_empty() { let k = format!("+{}", cs[0].0); let v = cs[0].1.clone(); cs.push((k, v)); } } "chunk-dup" }
+        9 => { if let T::O(cs) = &mut kvs[13].1 { if !cs.is_empty() { cs[0].1 = T::N(3); } } "chunk-number" }
+        10 => { if let T::O(cs) = &mut kvs[13].1 { if !cs.is_empty() { if let T::S(s) = &mut cs[0].1 { s.push('G'); } } } "chunk-hex-bad" }
+        _ => { kvs[13].1 = T::A(vec![]); "chunks-array" }
+    }
+}
+
+fn case_json_fimg(ctx: &mut Ctx, idx: usize, rng: &mut Rng, sel: usize) {
+    let f = gen_fimg(rng, sel);
+    let mut keys: Vec<usize> = f.chunks.keys().cloned().collect();
+    keys.sort_unstable();
+    let chunks = if keys.is_empty() { "-".to_string() } else { keys.iter().map(|k| format!("{}:{}", k, hx(&f.chunks[k]))).collect::<Vec<String>>().join(",") };
+    let case = format!("idx={} json-fimg fs={} ver={} chunks={} path={:?}", idx, f.file_system, f.fimg_version, keys.len(), f.full_path);
+    // to_json, compared as a tree; then from_json(to_json(x)) == x
+    let js = guarded(|| f.to_json(None));
+    let (tree_s, back) = match &js {
+        Err(p) => { ctx.out.oracle(false, "to_json-does-not-panic", &format!("panic:{}", site(p)), &case); ("panic".to_string(), "panic".to_string()) }
+        Ok(s) => {
+            let tree = match json::parse(s) { Ok(j) => t_render(&json_to_t(&j)), Err(_) => "unparsable".to_string() };
+            let back = match guarded(|| FileImage::from_json(s)) { Err(_) => "panic", Ok(Err(_)) => "err", Ok(Ok(g)) => if fimg_eq(&f, &g) { "same" } else { "differs" } };
+            (tree, back.to_string())
+        }
+    };
+    ctx.out.q(&format!("c13 fimg2json {} {} {} {} {} {} {} {} {} {} {} {} {} {}", hx(f.fimg_version.as_bytes()), hx(f.file_system.as_bytes()), f.chunk_len,
+        hx(&f.eof), hx(&f.fs_type), hx(&f.aux), hx(&f.access), hx(&f.accessed), hx(&f.created), hx(&f.modified), hx(&f.version), hx(&f.min_version),
+        hx(f.full_path.as_bytes()), chunks), &format!("{} back={}", digest(tree_s.as_bytes()), back));
+    // the property: a file image written as JSON parses back to an equal value (format 2.1 and later, or
+    // an older image that has no path / access time, which format 2.0 does not carry)
+    let v = FileImage::version_tuple(&f.fimg_version);
+    if v >= (2, 1, 0) || (f.accessed.is_empty() && f.full_path.is_empty() && v >= (2, 0, 0)) {
+        ctx.out.oracle(back == "same", "from_json(to_json(x))==x", "fimg/json/roundtrip-differs", &case);
+        let pretty = guarded(|| FileImage::from_json(&f.to_json(Some(2))));
+        ctx.out.oracle(matches!(&pretty, Ok(Ok(g)) if fimg_eq(&f, g)), "from_json(to_json_pretty(x))==x", "fimg/json/pretty-roundtrip-differs", &case);
+    }
+    // from_json on the same tree with one mutation
+    let mut t = fimg_to_t(&f);
+    let m = mutate_tree(rng, &mut t, sel / 3);
+    let text = json::stringify(t_to_json(&t));
+    let r = match guarded(|| FileImage::from_json(&text)) { Err(_) => "panic".to_string(), Ok(Err(_)) => "err".to_string(), Ok(Ok(g)) => format!("ok {}", full_digest(&g)) };
+    ctx.out.q(&format!("c13 json2fimg {}", t_render(&t)), &r);
+    ctx.out.count(&format!("json-fimg:{}", m));
+    ctx.out.case(case.as_bytes(), !keys.is_empty());
+    ctx.out.sample(&case);
+}
+
+fn case_json_recs(ctx: &mut Ctx, idx: usize, rng: &mut Rng, sel: usize) {
+    let rec_len = [2usize, 64, 128, 300, 65535, 0, 70000][sel % 7];
+    let n = rng.range(1, 5);
+    let mut recs = a2kit::fs::Records::new(rec_len);
+    let mut stored: Vec<(usize, String)> = Vec::new();
+    for _ in 0..n {
+        let num = [0usize, 1, 9, 10, 11, 100, 4000][rng.below(7)];
+        if stored.iter().any(|(k, _)| *k == num) { continue; }
+        let text = match rng.below(6) { 0 => String::new(), 1 => "\n".to_string(), 2 => "A\n\nB\n".to_string(), _ => { let l = rng.range(1, 40); record_text(rng, l) } };
+        recs.add_record(num, &text);
+        stored.push((num, text));
+    }
+    stored.sort();
+    let spec = stored.iter().map(|(k, t)| format!("{}:{}", k, hx(t.as_bytes()))).collect::<Vec<String>>().join(",");
+    let case = format!("idx={} json-recs rec_len={} records={}", idx, rec_len, stored.iter().map(|(k, t)| format!("{}:{}", k, t.len())).collect::<Vec<String>>().join(","));
+    // to_json iterates the HashMap, i.e. in arbitrary order (that is C20's business): compare the
+    // tree with the `records` entries sorted by numeric key
+    let js = recs.to_json(None);
+    let mut tree = match json::parse(&js) { Ok(j) => json_to_t(&j), Err(_) => T::Z };
+    if let T::O(kvs) = &mut tree { for (k, v) in kvs.iter_mut() { if k == "records" { if let T::O(rs) = v { rs.sort_by_key(|(k, _)| k.parse::<usize>().unwrap_or(0)); } } } }
+    let back = match guarded(|| a2kit::fs::Records::from_json(&js)) {
+        Err(_) => "panic", Ok(Err(_)) => "err",
+        Ok(Ok(r)) => if r.record_len == rec_len && r.map.len() == stored.len() && stored.iter().all(|(k, t)| r.map.get(k) == Some(t)) { "same" } else { "differs" }
+    };
+    ctx.out.q(&format!("c13 recs2json {} {}", rec_len, spec), &format!("{} back={}", digest(t_render(&tree).as_bytes()), back));
+    ctx.out.oracle(back == "same", "Records::from_json(to_json(x))==x", "recs/json/roundtrip-differs", &case);
+    // from_json on a mutated tree
+    let mut t = T::O(vec![("fimg_type".to_string(), T::S("rec".to_string())), ("record_length".to_string(), T::N(rec_len)),
+        ("records".to_string(), T::O(stored.iter().map(|(k, t)| (k.to_string(), T::A(t.lines().map(|l| T::S(l.to_string())).collect()))).collect()))]);
+    if let T::O(kvs) = &mut t {
+        match (sel / 7) % 8 {
+            0 | 1 => {}
+            2 => { kvs[0].1 = T::S("fimg".to_string()); }
+            3 => { let p = rng.below(3); kvs.remove(p); }
+            4 => { if let T::O(rs) = &mut kvs[2].1 { rs[0].0 = "k".to_string(); } }
+            5 => { if let T::O(rs) = &mut kvs[2].1 { rs[0].1 = T::A(vec![T::S("A".to_string()), T::N(1)]); } }
+            6 => { kvs[2].1 = T::O(vec![]); }
+            _ => { if let T::O(rs) = &mut kvs[2].1 { rs[0].1 = T::S("not-an-array".to_string()); let k = format!("+{}", rs[0].0); rs.push((k, T::A(vec![T::S("DUP".to_string())]))); } }
+        }
+    }
+    let text = json::stringify(t_to_json(&t));
+    let r = match guarded(|| a2kit::fs::Records::from_json(&text)) { Err(_) => "panic".to_string(), Ok(Err(_)) => "err".to_string(),
+        Ok(Ok(r)) => format!("ok len={} {}", r.record_len, render_recs(&r.map)) };
+    ctx.out.q(&format!("c13 json2recs {}", t_render(&t)), &r);
+    ctx.out.count("json-recs");
+    ctx.out.case(case.as_bytes(), true);
+    ctx.out.sample(&case);
+}
+
+fn check_newfimg(ctx: &mut Ctx) {
+    for fs in ALL_FS {
+        let f = new_fimg(fs, 256);
+        ctx.out.q(&format!("c13 newfimg {}", fs.name()), &format!("fs={} eof={} aux={}", hx(f.file_system.as_bytes()), hx(&f.eof), hx(&f.aux)));
+    }
+}
+
+pub fn run(ctx: &mut Ctx) {
+    let mut root = Rng::new(ctx.seed);
+    let var = Variant::probe();
+    if ctx.out.only.is_none() { check_newfimg(ctx); }
+    ctx.out.count(&format!("variant:dos-{}", var.dos));
+    ctx.out.count(&format!("variant:prodos-{}", var.prodos));
+    ctx.out.count(&format!("variant:deduce-{}", var.deduce));
+    let mut idx = 0usize;
+    // ---- section A: bin/tok/raw -------------------------------------------------------------
+    let n_bin = ctx.n(540, 8000);
+    for k in 0..n_bin {
+        let mut rng = root.fork(idx as u64);
+        if ctx.out.wants(idx) { case_bin(ctx, idx, &mut rng, &var, ALL_FS[k % 5], k / 5); }
+        idx += 1;
+    }
+    let n_tok = ctx.n(360, 6000);
+    for k in 0..n_tok {
+        let mut rng = root.fork(idx as u64);
+        // token streams exist for DOS and ProDOS; keep a thin stream on the three that refuse
+        let fs = if k % 10 < 8 { [Fs::Dos, Fs::Prodos][k % 2] } else { [Fs::Pascal, Fs::Cpm, Fs::Fat][(k / 10) % 3] };
+        if ctx.out.wants(idx) { case_tok(ctx, idx, &mut rng, &var, fs, k / 2); }
+        idx += 1;
+    }
+    let n_raw = ctx.n(300, 4000);
+    for k in 0..n_raw {
+        let mut rng = root.fork(idx as u64);
+        if ctx.out.wants(idx) { case_raw(ctx, idx, &mut rng, &var, ALL_FS[k % 5], k / 5); }
+        idx += 1;
+    }
+    for which in 0..2 {
+        if ctx.out.wants(idx) { case_prodos_16m(ctx, idx, which); }
+        idx += 1;
+    }
+    // ---- section B: text --------------------------------------------------------------------
+    let n_txt = ctx.n(800, 12000);
+    for k in 0..n_txt {
+        let mut rng = root.fork(idx as u64);
+        if ctx.out.wants(idx) { case_txt(ctx, idx, &mut rng, &var, ALL_FS[k % 5], k / 5); }
+        idx += 1;
+    }
+    let n_conv = ctx.n(300, 5000);
+    for k in 0..n_conv {
+        let mut rng = root.fork(idx as u64);
+        if ctx.out.wants(idx) { case_conv(ctx, idx, &mut rng, ALL_FS[k % 5], k / 5); }
+        idx += 1;
+    }
+    // ---- section C: records -----------------------------------------------------------------
+    let n_rec = ctx.n(500, 8000);
+    for k in 0..n_rec {
+        let mut rng = root.fork(idx as u64);
+        let fs = if k % 12 < 10 { [Fs::Dos, Fs::Prodos][k % 2] } else { [Fs::Pascal, Fs::Cpm, Fs::Fat][(k / 12) % 3] };
+        if ctx.out.wants(idx) { case_rec(ctx, idx, &mut rng, fs, k / 2); }
+        idx += 1;
+    }
+    // ---- section D: JSON --------------------------------------------------------------------
+    let n_json = ctx.n(400, 6000);
+    for k in 0..n_json {
+        let mut rng = root.fork(idx as u64);
+        if ctx.out.wants(idx) { case_json_fimg(ctx, idx, &mut rng, k); }
+        idx += 1;
+    }
+    let n_jrec = ctx.n(250, 4000);
+    for k in 0..n_jrec {
+        let mut rng = root.fork(idx as u64);
+        if ctx.out.wants(idx) { case_json_recs(ctx, idx, &mut rng, k); }
+        idx += 1;
+    }
+    // ---- section E: escapes -----------------------------------------------------------------
+    let n_esc = ctx.n(300, 5000);
+    for k in 0..n_esc {
+        let mut rng = root.fork(idx as u64);
+        if ctx.out.wants(idx) { case_esc(ctx, idx, &mut rng, k); }
+        idx += 1;
+    }
+}
